@@ -452,3 +452,44 @@ class DynScheduler(Scheduler):
         finally:
             _current = None
         return self
+
+
+class CoopEvent:
+    """threading.Event look-alike whose wait() blocks cooperatively"""
+
+    def __init__(self):
+        self._flag = False
+
+    def is_set(self):
+        return self._flag
+
+    isSet = is_set
+
+    def set(self):
+        self._flag = True
+        s = _current
+        if s is not None:
+            s.unblock(self)
+
+    def clear(self):
+        self._flag = False
+
+    def wait(self, timeout=None):
+        s = _current
+        me = s.me() if s is not None else None
+        while not self._flag:
+            if me is None:
+                raise RuntimeError("CoopEvent waited for from outside the scheduler")
+            s.block(me, self)
+        return True
+
+
+class ThreadingShim:
+    """stands in for the `threading` module inside ONE module under test (module.threading = ThreadingShim(...)):
+    the named attributes are replaced, everything else is the real module's"""
+
+    def __init__(self, **over):
+        self.__dict__.update(over)
+
+    def __getattr__(self, name):
+        return getattr(threading, name)
